@@ -16,7 +16,8 @@ from sim import core
 PROP = 'C17'
 LEVEL = 'exploration'
 EVAL_KEY = 'pairs'
-C = 10.0
+C = 10.0     # amen_solve residual
+CM = 5.0     # fast_matvec error (as C11)
 TIERS = {
     'quick': {'runs': 1500, 'opts': {}, 'chunk': 15},
     'thorough': {'runs': 100000, 'opts': {}, 'chunk': 60, 'time_cap': 1500},
@@ -118,6 +119,9 @@ def exec_case(p, res):
                     out.append(core.violation(PROP, 'OPERAND', 'fast_matvec', backend + ':' + r[0], '%s changed by the %s backend: %s' % (w, backend, r[1]), desc))
                     snaps = [(o2, take_snap(o2), w2) for o2, _, w2 in snaps]
         ne = gen.fro(exact)
+        rep = 1.0
+        for c_ in list(A.cores) + list(B.cores):
+            rep *= gen.fro(c_)
         ratios = {}
         dens = {}
         for backend, y in ys.items():
@@ -130,12 +134,12 @@ def exec_case(p, res):
             dens[backend] = gen.dense(y)
             err = gen.fro(dens[backend] - exact.reshape(dens[backend].shape))
             ratios[backend] = err / (p['eps'] * ne) if ne > 0 else 0.0
-            if not err <= C * p['eps'] * ne + 1000 * gen.UNIT_ROUNDOFF['f64'] * ne:
+            if not err <= CM * p['eps'] * ne + 1000 * gen.UNIT_ROUNDOFF['f64'] * max(ne, rep):
                 out.append(core.violation(PROP, 'ACCURACY', 'fast_matvec', backend + ':error', '%s backend: relative error %.3g = %.3g * eps (eps=%.0e)' % (backend, err / max(ne, 1e-300), ratios[backend], p['eps']), desc))
         if len(dens) == 2:
             diff = gen.fro(dens['cpp'] - dens['py'])
             ratios['mutual'] = diff / (p['eps'] * ne) if ne > 0 else 0.0
-            if not diff <= 2 * C * p['eps'] * ne + 2000 * gen.UNIT_ROUNDOFF['f64'] * ne:
+            if not diff <= 2 * CM * p['eps'] * ne + 2000 * gen.UNIT_ROUNDOFF['f64'] * max(ne, rep):
                 out.append(core.violation(PROP, 'AGREE', 'fast_matvec', 'mutual', 'backends differ by %.3g * eps' % ratios['mutual'], desc))
         return out, ratios
     # solve
